@@ -480,10 +480,12 @@ fn consume_expr<'i>(
                         }
                     }
                     Rule::insensitive_string => {
-                        let string =
-                            unescape(pair.as_str()).ok_or_else(|| bad_literal(&pair, "string"))?;
+                        // `^` and the string may be separated by whitespace or comments
+                        let literal = pair.clone().into_inner().next().unwrap();
+                        let string = unescape(literal.as_str())
+                            .ok_or_else(|| bad_literal(&pair, "string"))?;
                         ParserNode {
-                            expr: ParserExpr::Insens(string[2..string.len() - 1].to_owned()),
+                            expr: ParserExpr::Insens(string[1..string.len() - 1].to_owned()),
                             span: pair.clone().as_span(),
                         }
                     }
